@@ -611,12 +611,13 @@ impl Stream {
         consumer: &str,
         min_idle_ms: u64,
         ids: &[StreamId],
-        force: bool
+        force: bool,
+        justid: bool
     ) -> Result<Vec<StreamEntry>, String> {
         let group = self.consumer_groups.get_group(group_name)
             .ok_or_else(|| format!("NOGROUP No such consumer group {} for stream", group_name))?;
         
-        let claimed_ids = group.claim_messages(consumer, min_idle_ms, ids, force);
+        let claimed_ids = group.claim_messages(consumer, min_idle_ms, ids, force, justid);
         
         // Get the actual entries for claimed IDs
         let data = self.data.lock().unwrap();
